@@ -726,7 +726,11 @@ class C18(fw.Check):
     lean_targets = ["OdmlModel.Props.C18"]
     obligations = ["C18." + t for t in [
         "resolve_is_direct_parse", "load_result_schedule_independent", "table_entries_resolved",
-        "cached_identity", "cache_monotone", "failed_fetch_writes_nothing", "no_exception"]]
+        "cached_identity", "cache_monotone", "failed_fetch_writes_nothing", "no_exception",
+        "join_names_started_thread", "progress", "waits_for_decreases_rank",
+        "measure_decreases", "effective_steps_bounded", "fair_schedule_terminates",
+        "maximal_run_completes", "load_none_iff_unloadable",
+        "maximal_run_requested_loaded_or_failed"]]
     trusted_base = [
         "Lean 4.33.0 kernel; axioms propext, Classical.choice, Quot.sound only (audited per theorem)",
         "hand-written model lean/OdmlModel/Model/Loader.lean, tied to /repo by this correspondence run",
@@ -737,9 +741,12 @@ class C18(fw.Check):
         "as the include graph and positional content trees)",
     ]
     assumptions = [
-        "partial: fairness-based termination of real threads, the GIL, OS scheduling and network timeouts "
-        "are not modelled; `progress` (some thread is always enabled, waits-for edges go down the include "
-        "DAG) is the logic part of 'never blocks forever'",
+        "partial: the GIL, OS scheduling (that the real scheduler is fair) and network timeouts are not "
+        "modelled; 'never blocks forever' is proved in the model's terms: `progress` (no reachable state is "
+        "stuck: some thread is enabled unless all have finished; waits-for edges go down the include DAG), "
+        "`measure_decreases` / `effective_steps_bounded` (every step decreases a measure, every schedule "
+        "has a bounded number of effective steps) and `fair_schedule_terminates` (every weakly fair "
+        "infinite schedule reaches the state where the caller has completed its whole program)",
         "interleaving granularity is the property's: accesses to the two shared tables (critical sections "
         "of the handler lock), thread start, join and exit; fetching, cache-file writing and parsing are "
         "atomic with the preceding critical section (concurrent writers of one cache file are not modelled)",
